@@ -539,6 +539,11 @@ func init() {
 	reg(sdkp+"Uint64ToBigEndian", func(e *Exec, s *State, f *Frame, x *ssa.Call, a []Val) ([]*State, bool) {
 		return ret(f, x, BytesV{Segs: []Seg{{Kind: "be64", T: a[0].(Sym).S}}})
 	})
+	// the only user of encoding/binary.PutUint64 in comdex: 8 big-endian bytes of uint64(num) (modelled as a whole)
+	reg(comdexPath+"/x/bandoracle/types.int64ToBytes", func(e *Exec, s *State, f *Frame, x *ssa.Call, a []Val) ([]*State, bool) {
+		n := a[0].(Sym).S
+		return ret(f, x, BytesV{Segs: []Seg{{Kind: "be64", T: tIte(tCmp("<", n, "0"), tAdd(n, "18446744073709551616"), n)}}})
+	})
 	reg(sdkp+"BigEndianToUint64", func(e *Exec, s *State, f *Frame, x *ssa.Call, a []Val) ([]*State, bool) {
 		b := e.toBytesV(s, a[0])
 		segs := normSegs(b.Segs)
